@@ -222,7 +222,7 @@ def oracle(case, rec):
                         t[4], t[7], want[0], assigned[own], [g for g in got if g[0] == want[0]] or 'no link to that url'))
     # (d) every file reachable from the start page (themes with navigation / a table of contents)
     # ("with a table of contents": toc-depth >= 1; without one the XHTML layout may lose a next-link, see notes/C14/REPORT.md)
-    if case['cfg']['renderer'] != 'html5min' and eff['tocdepth'] >= 1 and docenv is not None and docenv[0] in assigned:
+    if case['cfg']['renderer'] not in rd.NO_NAVIGATION and eff['tocdepth'] >= 1 and docenv is not None and docenv[0] in assigned:
         start = assigned[docenv[0]]
         seen, todo = {start}, [start]
         while todo:
